@@ -13,25 +13,25 @@ import (
 func init() { register("E5-decide", runE5) }
 
 type E5Row struct {
-	Props  []string          `json:"props"`
-	Func   string            `json:"func"`
-	Params []string          `json:"params"` // names used in the spec expressions, positional (receiver first)
-	Kind   string            `json:"kind"`   // returns | emits | callarg | callguard | final
-	What   string            `json:"what"`
-	Expr   string            `json:"expr"`   // returns: the result; callguard: the condition; callarg: the argument
-	Result int               `json:"result"` // returns: index of the result in a tuple
-	Target string            `json:"target"` // emits: "param:N" | "global:rel/pkg.var" | "globalfield:rel/pkg.var.Field" | "mapstore:<term>"
-	Tag    map[string]string `json:"tag"`    // emits: constant fields identifying the record
-	When   string            `json:"when"`   // emits: condition
-	Each   *E5Each           `json:"each"`   // emits inside a loop: binder
-	Fields map[string]string `json:"fields"` // emits: field provenance
-	Callee string            `json:"callee"` // callarg/callguard: function key of the callee
-	Arg    int               `json:"arg"`    // callarg: argument index
-	NoInline []string        `json:"no_inline"` // callees kept opaque (compared by name)
-	Global string            `json:"global"` // final: rel/pkg.var
-	Value  string            `json:"value"`  // final: expected constant (Go literal) or list literal
-	Total  int               `json:"total"`  // emits: total number of emissions to the target expected in the function (0 = not checked)
-	Index  int               `json:"index"`  // emits: which of several matching emissions (in source order) this row describes
+	Props    []string          `json:"props"`
+	Func     string            `json:"func"`
+	Params   []string          `json:"params"` // names used in the spec expressions, positional (receiver first)
+	Kind     string            `json:"kind"`   // returns | emits | callarg | callguard | final
+	What     string            `json:"what"`
+	Expr     string            `json:"expr"`      // returns: the result; callguard: the condition; callarg: the argument
+	Result   int               `json:"result"`    // returns: index of the result in a tuple
+	Target   string            `json:"target"`    // emits: "param:N" | "global:rel/pkg.var" | "globalfield:rel/pkg.var.Field" | "mapstore:<term>"
+	Tag      map[string]string `json:"tag"`       // emits: constant fields identifying the record
+	When     string            `json:"when"`      // emits: condition
+	Each     *E5Each           `json:"each"`      // emits inside a loop: binder
+	Fields   map[string]string `json:"fields"`    // emits: field provenance
+	Callee   string            `json:"callee"`    // callarg/callguard: function key of the callee
+	Arg      int               `json:"arg"`       // callarg: argument index
+	NoInline []string          `json:"no_inline"` // callees kept opaque (compared by name)
+	Global   string            `json:"global"`    // final: rel/pkg.var
+	Value    string            `json:"value"`     // final: expected constant (Go literal) or list literal
+	Total    int               `json:"total"`     // emits: total number of emissions to the target expected in the function (0 = not checked)
+	Index    int               `json:"index"`     // emits: which of several matching emissions (in source order) this row describes
 }
 
 type E5Each struct {
@@ -158,7 +158,7 @@ func runE5Row(p *Program, sp *Spec, c *Collector, r *E5Row) bool {
 	}
 	fn := p.Func(r.Func)
 	if fn == nil {
-		c.Fatal("E5: %s does not resolve", r.Func)
+		c.Anchor(r.Props, "E5: %s does not resolve", r.Func)
 		return false
 	}
 	sf := newSymFn(p, fn, 0)
@@ -175,7 +175,7 @@ func runE5Row(p *Program, sp *Spec, c *Collector, r *E5Row) bool {
 		}
 		want, err := parse(r.Expr)
 		if err != nil {
-			c.Fatal("E5: %v", err)
+			c.Anchor(r.Props, "E5: %v", err)
 			return false
 		}
 		got := sf.returnSym()
@@ -241,7 +241,7 @@ func runE5Row(p *Program, sp *Spec, c *Collector, r *E5Row) bool {
 			if r.Each.Coll != "" {
 				wantColl, err := parse(r.Each.Coll, extra[:len(extra)-1]...)
 				if err != nil {
-					c.Fatal("E5: %v", err)
+					c.Anchor(r.Props, "E5: %v", err)
 					return false
 				}
 				gotColl := sf.loopCollection(hs[len(hs)-1]).subst(spec2code)
@@ -257,14 +257,14 @@ func runE5Row(p *Program, sp *Spec, c *Collector, r *E5Row) bool {
 		}
 		want, err := parse(r.When, extra...)
 		if err != nil {
-			c.Fatal("E5: %v", err)
+			c.Anchor(r.Props, "E5: %v", err)
 			return false
 		}
 		ok := e5Compare(c, r, key+" when", e.pos, cond, want, "bool", r.What)
 		for _, f := range sortedKeys(r.Fields) {
 			wantF, err := parse(r.Fields[f], extra...)
 			if err != nil {
-				c.Fatal("E5: %v", err)
+				c.Anchor(r.Props, "E5: %v", err)
 				return false
 			}
 			var gotF *Sym
@@ -343,7 +343,7 @@ func runE5Row(p *Program, sp *Spec, c *Collector, r *E5Row) bool {
 		}
 		want, err := parse(r.Expr, extra...)
 		if err != nil {
-			c.Fatal("E5: %v", err)
+			c.Anchor(r.Props, "E5: %v", err)
 			return false
 		}
 		var got *Sym
@@ -353,7 +353,7 @@ func runE5Row(p *Program, sp *Spec, c *Collector, r *E5Row) bool {
 			hint = "bool"
 		} else {
 			if r.Arg >= len(site.Call.Args) {
-				c.Fatal("E5: %s: call of %s has no argument %d", r.Func, r.Callee, r.Arg)
+				c.Anchor(r.Props, "E5: %s: call of %s has no argument %d", r.Func, r.Callee, r.Arg)
 				return false
 			}
 			got = sf.val(site.Call.Args[r.Arg])
@@ -361,7 +361,7 @@ func runE5Row(p *Program, sp *Spec, c *Collector, r *E5Row) bool {
 		got = got.subst(subst)
 		return e5Compare(c, r, key, p.InstrPos(site), got, want, hint, r.What)
 	}
-	c.Fatal("E5: unknown row kind %q", r.Kind)
+	c.Anchor(r.Props, "E5: unknown row kind %q", r.Kind)
 	return false
 }
 
@@ -471,7 +471,7 @@ func runE5Final(p *Program, c *Collector, r *E5Row) bool {
 	g := p.Global(r.Global)
 	key := "final:" + r.Global
 	if g == nil {
-		c.Fatal("E5: global %s does not resolve", r.Global)
+		c.Anchor(r.Props, "E5: global %s does not resolve", r.Global)
 		return false
 	}
 	a := getStateAn(p)
@@ -493,7 +493,7 @@ func runE5Final(p *Program, c *Collector, r *E5Row) bool {
 			part = strings.TrimSpace(part)
 			s, err2 := parseSpecExpr(part, nil, nil)
 			if err2 != nil {
-				c.Fatal("E5: final %s: %v", r.Global, err)
+				c.Anchor(r.Props, "E5: final %s: %v", r.Global, err)
 				return false
 			}
 			kids = append(kids, s)
